@@ -33,7 +33,7 @@ def jobs(tier):
     # concrete parts of day through the real table (no stub)
     from ..harness.common import PODS
     picks = [PODS.index(p) for p in ("morning", "night", "last", "first")] if tier == "quick" else list(range(NPODS))
-    ys = [2024] if tier == "quick" else [2023, 2024]
+    ys = [2024]
     for y in ys:
         for pi in picks:
             out.append(Job("C04.latentPOD[{}:{}]".format(y, PODS[pi]), H, "ob_latentpod",
